@@ -7,8 +7,8 @@ Oracle: every level read back is compared with an independent whole-level
 reference downscale (NumPy/Python, exact integers) of the previous level as
 read back; every run is done twice with np.empty poisoned by 0x00 and 0xFF.
 Outcome classes: exact / error / silently wrong.  "error" satisfies the
-property; "silently wrong" is a violation unless the transition lies in the
-region of the listed finding (stretch class, computed from the geometry).
+property; "silently wrong" is ALWAYS a violation (C06_tiling_sound holds without
+a guard since /repo e7c7a72 refuses the half-chunk-1 stretch up front).
 """
 import copy
 import json
@@ -26,7 +26,6 @@ RULE = ("(a) hand-made (old size, new size, old chunk, new chunk) transitions on
         "sharded), raw and compressed_segmentation. 3 methods, uint8/16/32/64, 1..2 channels, each run twice with "
         "np.empty poisoned 0x00 / 0xFF. non-trivial = at least 2 new chunks or at least 2 old chunks per new chunk")
 
-F_STRETCH = "c06-length1-broadcast"
 DTYPES = {"uint8": 2 ** 8 - 1, "uint16": 2 ** 16 - 1, "uint32": 2 ** 32 - 1, "uint64": 2 ** 64 - 1}
 
 
@@ -47,7 +46,11 @@ def rand_vol(rng, shape, dtype, method):
 
 
 def stretch_axis(os_, ns, oc, nc):
-    return oc == pc.py_axis_f(os_, ns) and min(nc, ns) >= 3
+    return oc // pc.py_axis_f(os_, ns) == 1 and min(nc, ns) >= 3
+
+
+def geom_pos_py(os3, ns3, oc3, nc3, C):
+    return all(v > 0 for v in list(os3) + list(ns3) + list(oc3) + list(nc3)) and C > 0
 
 
 def stretch_class(os3, ns3, oc3, nc3):
@@ -134,19 +137,22 @@ def transition(R, case, os3, ns3, oc3, nc3, method, dtype, C, vol, known_region=
             cls = "exact"
         new = g0
         if cls == "wrong":
-            inside = stretch_class(os3, ns3, oc3, nc3) and m_stretch
-            if inside:
-                R.known(F_STRETCH)
-            else:
-                R.violation("new scale written without error but wrong: " + detail, case,
-                            {"wrong_voxels": int((g0 != ref).sum()) if ref is not None and ref.shape == g0.shape else None})
+            R.violation("new scale written without error but wrong: " + detail, case,
+                        {"wrong_voxels": int((g0 != ref).sum()) if ref is not None and ref.shape == g0.shape else None,
+                         "half_chunk_1_stretch_geometry": stretch_class(os3, ns3, oc3, nc3)})
     # --- the proved predicates, checked against what the implementation did
     if m_compat and cls == "error":
         # an error is not wrong data, but the implementation no longer does what tiling_exact proves of the model
         R.disagree("compat geometry not tiled exactly (tiling_exact is proved for the model)", case, runs[0][1][:2], "exact")
-    if m_guard and cls == "wrong":
-        R.violation("silently wrong inside tiling_guard (theorem tiling_sound_on_guard would be contradicted)",
-                    case, cls)
+    if (cls == "exact") != m_compat and geom_pos_py(os3, ns3, oc3, nc3, C):
+        # C06_ok_iff_compat: on positive geometries "no error" coincides with compat
+        if cls != "wrong":
+            R.disagree("outcome class vs compat (C06_ok_iff_compat is proved for the model)", case, cls, m_compat)
+    if stretch_class(os3, ns3, oc3, nc3) != m_stretch:
+        R.disagree("stretch_class: extracted predicate vs Python restatement", case,
+                   stretch_class(os3, ns3, oc3, nc3), m_stretch)
+    if m_stretch and sizes_ok and not m_zero and cls != "error":
+        R.violation("half chunk of 1 facing an extent >= 3 was not refused", case, cls)
     pyc = all(pc.py_compat_axis(*t) for t in zip(os3, ns3, oc3, nc3)) and sizes_ok
     if pyc != m_compat:
         R.disagree("compat: extracted predicate vs Python restatement", case, pyc, m_compat)
@@ -227,12 +233,9 @@ def judge_levels(R, case, info, levels, method, err):
             break
         if ref.shape != levels[li].shape or not np.array_equal(ref, levels[li]):
             worst = "wrong"
-            if stretch_class(os3, ns3, oc3, nc3) and pc.py_geom_class(os3, ns3, oc3, nc3) == "wrong":
-                R.known(F_STRETCH)
-            else:
-                R.violation("scale written without error but different from the previous scale downscaled once",
-                            {**case, "level": li},
-                            {"wrong_voxels": int((ref != levels[li]).sum()) if ref.shape == levels[li].shape else None})
+            R.violation("scale written without error but different from the previous scale downscaled once",
+                        {**case, "level": li},
+                        {"wrong_voxels": int((ref != levels[li]).sum()) if ref.shape == levels[li].shape else None})
     if err is not None and worst == "exact":
         worst = "error"
     return worst
@@ -247,16 +250,35 @@ def run(R):
     rng = R.rng
     quick = R.tier == "quick"
 
-    # ---------------------------------------------------------- corpus: the recorded witness
-    for f in R.findings:
-        w = f.get("witness", {})
-        if "old_size" in w:
-            os3, ns3, oc3, nc3 = w["old_size"], w["new_size"], w["old_chunk"], w["new_chunk"]
-            vol = rand_vol(rng, (1, os3[2], os3[1], os3[0]), "uint8", "average")
-            case = {"corpus": f["id"], "os": os3, "ns": ns3, "oc": oc3, "nc": nc3, "method": "average"}
+    # ---------------------------------------------------------- corpus: the former silent-wrong witnesses
+    # (findings/C06.json is empty since /repo e7c7a72; these must now end in an error)
+    for os3, ns3, oc3, nc3 in (([9, 5, 1], [5, 3, 1], [8, 2, 2], [8, 4, 4]),
+                               ([1, 6, 8], [1, 3, 8], [2, 2, 8], [4, 4, 8]),
+                               ([4, 7, 3], [4, 7, 3], [4, 1, 2], [4, 4, 2])):
+        for method in ("average", "stride", "majority"):
+            vol = rand_vol(rng, (1, os3[2], os3[1], os3[0]), "uint8", method)
+            case = {"corpus": "former-length1-broadcast", "os": os3, "ns": ns3, "oc": oc3, "nc": nc3,
+                    "method": method, "dtype": "uint8", "C": 1, "data": vol.tobytes().hex()}
             R.case(case, nontrivial=True)
-            cls, _ = transition(R, case, os3, ns3, oc3, nc3, "average", "uint8", 1, vol)
-            R.extra["witness_class:" + f["id"]] = cls
+            cls, _ = transition(R, case, os3, ns3, oc3, nc3, method, "uint8", 1, vol)
+            R.count("former-witness:" + cls)
+    from neuroglancer_scripts import dyadic_pyramid as _dp
+    winfo = pc.base_info([65, 5, 1], [1, 8, 32])
+    _dp.fill_scales_for_dyadic_pyramid(winfo, target_chunk_size=4)
+    wvol = rand_vol(rng, (1, 1, 5, 65), "uint8", "average")
+    wio = pc.MemIO(copy.deepcopy(winfo))
+    wio.fill_level(winfo["scales"][0]["key"], wvol)
+    with pc.poisoned(0xFF):
+        wout = pc.outcome_bc(lambda: _dp.compute_dyadic_scales(wio, pc.get_ds("average")))
+    wcase = {"corpus": "former-generated-witness", "size": [65, 5, 1], "resolution": [1, 8, 32], "target": 4}
+    R.case(wcase, nontrivial=True)
+    wlv = [wvol]
+    for li in range(1, len(winfo["scales"])):
+        got, full = wio.assemble(winfo["scales"][li]["key"])
+        if not full:
+            break
+        wlv.append(got)
+    R.count("former-generated-witness:" + judge_levels(R, wcase, winfo, wlv, "average", None if wout[0] == "ok" else wout))
 
     # ---------------------------------------------------------- (a) hand-made transitions
     for _ in range(1500 if quick else 22000):
